@@ -295,7 +295,7 @@ def classify(props, harness):
         p["desc"] = _CONCAT.sub(r"vk:\1", p["desc"])
         m = _VK.search(p["desc"])
         p["tag"] = m.group(0) if m else None
-        if p["tag"] is None and harness.allow_fail and harness.allow_fail.search(p["desc"]):
+        if p["tag"] is None and harness.allow_fail and harness.allow_fail.search(p["desc"] + " @" + p["fn"]):
             allowed.append(p)
             continue
         query.append(p)
